@@ -17,7 +17,8 @@ theorem ga_quads_map {β : Type} (A B C D : Nat) (g : Nat → Nat → Nat → Na
     block is non-zero and whose block product fits a word (what `Conv2dHelper::new` returns: `gen_cv_new_sound`) -/
 theorem ga_cv_output_terms_eq (H : Conv2dHelper)
     (hkh1 : 1 ≤ H.kernel_height) (hkh2 : H.kernel_height ≤ H.image_height_block)
-    (hkw1 : 1 ≤ H.kernel_width) (hkw2 : H.kernel_width ≤ H.image_width_block) (hcib : 1 ≤ H.input_channel_block)
+    (hkw1 : 1 ≤ H.kernel_width) (hkw2 : H.kernel_width ≤ H.image_width_block) (hbb : 1 ≤ H.batch_block)
+    (hcib : 1 ≤ H.input_channel_block) (hcob : 1 ≤ H.output_channel_block)
     (hfit : H.batch_block * H.input_channel_block * H.output_channel_block * (H.image_height_block * H.image_width_block) < 2^64) :
     cv_output_terms H = .ok (cvOutputTerms (ga_toCHelper H)) := by
   -- abbreviations are kept as the structure projections; the nonlinear facts are prepared per index tuple
@@ -26,20 +27,27 @@ theorem ga_cv_output_terms_eq (H : Conv2dHelper)
       cv_output_terms_loop1 H (H.image_height_block * H.image_width_block) (H.image_height_block - H.kernel_height + 1)
         (H.image_width_block - H.kernel_width + 1) b c i j l = .ok (.next (l ++ [cyPos (ga_toCHelper H) b c i j])) := by
     intro b hb c hc i hi j l hj
+    have q1 : H.image_height_block - (H.image_height_block - H.kernel_height + 1) + i ≤ H.image_height_block - 1 := by omega
+    have q2 : H.image_width_block - (H.image_width_block - H.kernel_width + 1) + j ≤ H.image_width_block - 1 := by omega
+    have q3 : H.image_height_block - H.kernel_height + 1 ≤ H.image_height_block := by omega
+    have q4 : H.image_width_block - H.kernel_width + 1 ≤ H.image_width_block := by omega
     have hX := ga_block_le (ib := H.input_channel_block) hb hc
     generalize hXd : b * H.input_channel_block * H.output_channel_block + c * H.input_channel_block + H.input_channel_block = X at hX
-    have hcob : 1 ≤ H.output_channel_block := by omega
     have e1 : b * H.input_channel_block ≤ b * H.input_channel_block * H.output_channel_block := Nat.le_mul_of_pos_right _ (by omega)
     have hI : 1 ≤ H.image_height_block * H.image_width_block := Nat.mul_pos (by omega) (by omega)
     have hT : X * (H.image_height_block * H.image_width_block)
         ≤ H.batch_block * H.input_channel_block * H.output_channel_block * (H.image_height_block * H.image_width_block) :=
       Nat.mul_le_mul_right _ hX
     have hXT : X ≤ X * (H.image_height_block * H.image_width_block) := Nat.le_mul_of_pos_right _ hI
+    have hIT : H.image_height_block * H.image_width_block ≤ X * (H.image_height_block * H.image_width_block) :=
+      Nat.le_mul_of_pos_left _ (by omega)
+    have hh' : H.image_height_block ≤ H.image_height_block * H.image_width_block := Nat.le_mul_of_pos_right _ (by omega)
+    have hw' : H.image_width_block ≤ H.image_height_block * H.image_width_block := Nat.le_mul_of_pos_left _ (by omega)
     have hA : (X - 1) * (H.image_height_block * H.image_width_block) + H.image_height_block * H.image_width_block
         = X * (H.image_height_block * H.image_width_block) := by
       rw [← Nat.succ_mul, Nat.succ_eq_add_one, Nat.sub_add_cancel (by omega)]
     have hB : (H.image_height_block - (H.image_height_block - H.kernel_height + 1) + i) * H.image_width_block
-        ≤ (H.image_height_block - 1) * H.image_width_block := Nat.mul_le_mul_right _ (by omega)
+        ≤ (H.image_height_block - 1) * H.image_width_block := Nat.mul_le_mul_right _ q1
     have hC : (H.image_height_block - 1) * H.image_width_block + H.image_width_block = H.image_height_block * H.image_width_block := by
       rw [← Nat.succ_mul, Nat.succ_eq_add_one, Nat.sub_add_cancel (by omega)]
     simp only [cv_output_terms_loop1, ga_ckMul (show b * H.input_channel_block < 2^64 by omega),
@@ -48,12 +56,12 @@ theorem ga_cv_output_terms_eq (H : Conv2dHelper)
       ga_ckAdd (show b * H.input_channel_block * H.output_channel_block + c * H.input_channel_block < 2^64 by omega),
       ga_ckAdd (show b * H.input_channel_block * H.output_channel_block + c * H.input_channel_block + H.input_channel_block < 2^64 by omega),
       hXd, ga_ckSub (show 1 ≤ X by omega), ga_ckMul (show (X - 1) * (H.image_height_block * H.image_width_block) < 2^64 by omega),
-      ga_ckSub (show H.image_height_block - H.kernel_height + 1 ≤ H.image_height_block by omega),
+      ga_ckSub q3,
       ga_ckAdd (show H.image_height_block - (H.image_height_block - H.kernel_height + 1) + i < 2^64 by omega),
       ga_ckMul (show (H.image_height_block - (H.image_height_block - H.kernel_height + 1) + i) * H.image_width_block < 2^64 by omega),
       ga_ckAdd (show (X - 1) * (H.image_height_block * H.image_width_block)
         + (H.image_height_block - (H.image_height_block - H.kernel_height + 1) + i) * H.image_width_block < 2^64 by omega),
-      ga_ckSub (show H.image_width_block - H.kernel_width + 1 ≤ H.image_width_block by omega),
+      ga_ckSub q4,
       ga_ckAdd (show H.image_width_block - (H.image_width_block - H.kernel_width + 1) + j < 2^64 by omega),
       ga_ckAdd (show (X - 1) * (H.image_height_block * H.image_width_block)
         + (H.image_height_block - (H.image_height_block - H.kernel_height + 1) + i) * H.image_width_block
@@ -90,10 +98,22 @@ theorem ga_cv_output_terms_eq (H : Conv2dHelper)
           (List.range (H.image_width_block - H.kernel_width + 1)).map (fun j => cyPos (ga_toCHelper H) b c i j))
         _ l (fun c l hc => l3 b hb c l hc), ga_ok_bind]
     rfl
-  have hprod : H.image_height_block * H.image_width_block < 2^64 := by
-    have hb0 : 0 < H.batch_block * H.input_channel_block * H.output_channel_block ∨
-        H.batch_block * H.input_channel_block * H.output_channel_block = 0 := by omega
-    sorry
-  sorry
+  have hP : 1 ≤ H.batch_block * H.input_channel_block * H.output_channel_block :=
+    Nat.mul_pos (Nat.mul_pos (by omega) (by omega)) (by omega)
+  have hprod : H.image_height_block * H.image_width_block
+      ≤ H.batch_block * H.input_channel_block * H.output_channel_block * (H.image_height_block * H.image_width_block) :=
+    Nat.le_mul_of_pos_left _ hP
+  have hh : H.image_height_block ≤ H.image_height_block * H.image_width_block := Nat.le_mul_of_pos_right _ (by omega)
+  have hw : H.image_width_block ≤ H.image_height_block * H.image_width_block := Nat.le_mul_of_pos_left _ (by omega)
+  simp only [cv_output_terms, ga_ckMul (show H.image_height_block * H.image_width_block < 2^64 by omega), ga_ckSub hkh2,
+    ga_ckAdd (show H.image_height_block - H.kernel_height + 1 < 2^64 by omega), ga_ckSub hkw2,
+    ga_ckAdd (show H.image_width_block - H.kernel_width + 1 < 2^64 by omega), ga_ok_bind, Nat.sub_zero,
+    ga_forUp_push_list _ (fun b => (List.range H.output_channel_block).flatMap fun c =>
+        (List.range (H.image_height_block - H.kernel_height + 1)).flatMap fun i =>
+          (List.range (H.image_width_block - H.kernel_width + 1)).map (fun j => cyPos (ga_toCHelper H) b c i j))
+      _ [] (fun b l hb => l4 b l hb), cvOutputTerms]
+  rw [ga_quads_map (ga_toCHelper H).bb (ga_toCHelper H).cob ((ga_toCHelper H).hb - (ga_toCHelper H).S.kh + 1)
+    ((ga_toCHelper H).wb - (ga_toCHelper H).S.kw + 1) (cyPos (ga_toCHelper H))]
+  rfl
 
 end HC
